@@ -6,8 +6,9 @@ import (
 	"Havoc/pkg/packager"
 )
 
-var verifIDs = []string{"00000011", "00000022", "000000a3", "000000b4", "000000c5"}
-var verifIDn = []int{0x11, 0x22, 0xa3, 0xb4, 0xc5}
+// two of the ids have the top bit set (32-bit agent ids are arbitrary)
+var verifIDs = []string{"00000011", "80000022", "000000a3", "900000b4", "000000c5"}
+var verifIDn = []int{0x11, 0x80000022, 0xa3, 0x900000b4, 0xc5}
 
 // verifForest builds a forest over 3 agents from a parent vector (parent[i] in {-1,0,1,2}),
 // with links lists and TS_Links rows consistent with it (invariant I).
